@@ -66,7 +66,7 @@ func requestMutations(fn *ssa.Function) []requestMutation {
 			n := CalleeName(x.Common())
 			switch n {
 			case "(net/http.Header).Set", "(net/http.Header).Add", "(net/http.Header).Del":
-				h := x.Call.Args[0]
+				h := PArgs(&x.Call)[0]
 				if !reqHeaderOf(h) {
 					return
 				}
@@ -74,15 +74,15 @@ func requestMutations(fn *ssa.Function) []requestMutation {
 				if own(base) {
 					return
 				}
-				k, _ := ConstString(x.Call.Args[1])
-				out = append(out, requestMutation{fn, i, "Header." + strings.TrimPrefix(n, "(net/http.Header)."), canonicalHeaderKey(k), x.Call.Args[1]})
+				k, _ := ConstString(PArgs(&x.Call)[1])
+				out = append(out, requestMutation{fn, i, "Header." + strings.TrimPrefix(n, "(net/http.Header)."), canonicalHeaderKey(k), PArgs(&x.Call)[1]})
 			case "(*net/http.Request).AddCookie", "(*net/http.Request).SetBasicAuth", "(*net/http.Request).SetPathValue":
-				if own(x.Call.Args[0]) {
+				if own(PArgs(&x.Call)[0]) {
 					return
 				}
 				out = append(out, requestMutation{fn, i, strings.TrimPrefix(n, "(*net/http.Request)."), "", nil})
 			default:
-				if b, ok := x.Call.Value.(*ssa.Builtin); ok && (b.Name() == "delete" || b.Name() == "clear") && len(x.Call.Args) > 0 && reqHeaderOf(x.Call.Args[0]) {
+				if b, ok := x.Call.Value.(*ssa.Builtin); ok && (b.Name() == "delete" || b.Name() == "clear") && len(PArgs(&x.Call)) > 0 && reqHeaderOf(PArgs(&x.Call)[0]) {
 					out = append(out, requestMutation{fn, i, "Header.delete", "", nil})
 				}
 			}
@@ -202,7 +202,7 @@ func runC02(c *Ctx) {
 	if hp := c.need(p, "C02.W", "agent.hostProxy"); hp != nil {
 		mk := c.UniqueCall("C02.W", p, hp, false, "net/http/httputil.NewSingleHostReverseProxy")
 		if mk != nil {
-			u := CallOf(mk).Args[0]
+			u := PArgs(CallOf(mk))[0]
 			if a, ok := Roots(u)[0].(*ssa.Alloc); ok && NamedType(a.Type()) == "net/url.URL" {
 				set := map[string]bool{}
 				for _, r := range Refs(a) {
@@ -318,7 +318,7 @@ func runC02(c *Ctx) {
 		if rr := c.UniqueCall("C02.I", p, f, false, "net/http.ReadRequest"); rr != nil {
 			ok := false
 			if call := CallResult(Args(CallOf(rr))[0], 0, "bufio.NewReader", "bufio.NewReaderSize"); call != nil {
-				ok = PathOf(call.Call.Args[0]) == P(f, 2)+".Body"
+				ok = PathOf(PArgs(&call.Call)[0]) == P(f, 2)+".Body"
 			}
 			c.Check("C02.I", "agent:private-parse-reader", p, rr.Pos(), ok, "the embedded request is parsed through a bufio.Reader created for this reply's body", "the reader given to http.ReadRequest ("+PathOf(Args(CallOf(rr))[0])+") is not a fresh bufio.NewReader(proxyResp.Body): the parsed request's body reads lazily through it, so a shared/pooled reader lets two in-flight requests take each other's body bytes")
 		}
@@ -388,7 +388,7 @@ func runC02(c *Ctx) {
 				for _, g := range GuardingIfs(call) {
 					cond, trueSucc := BoolTest(g.If)
 					if hp := CallResult(cond, 0, "strings.HasPrefix"); hp != nil && g.Succ == trueSucc {
-						if PathOf(hp.Call.Args[0]) == P(fn, 1)+".URL.Path" {
+						if PathOf(PArgs(&hp.Call)[0]) == P(fn, 1)+".URL.Path" {
 							guard = true
 						}
 					}
